@@ -977,6 +977,23 @@ func c03Regressions(c *Ctx) {
 	}
 }
 
+// c03Negate returns a profile with the same entities (shared with p, which is fine between
+// inputs) and every sample value negated.  (Profile.Copy goes through the encoder, which panics on
+// the inconsistent NumUnit lengths GenProfile can produce.)
+func c03Negate(p *profile.Profile) *profile.Profile {
+	q := &profile.Profile{SampleType: p.SampleType, DefaultSampleType: p.DefaultSampleType, Mapping: p.Mapping,
+		Location: p.Location, Function: p.Function, Comments: p.Comments, DocURL: p.DocURL, DropFrames: p.DropFrames,
+		KeepFrames: p.KeepFrames, TimeNanos: p.TimeNanos, DurationNanos: p.DurationNanos, PeriodType: p.PeriodType, Period: p.Period}
+	for _, s := range p.Sample {
+		t := &profile.Sample{Location: s.Location, Label: s.Label, NumLabel: s.NumLabel, NumUnit: s.NumUnit}
+		for _, v := range s.Value {
+			t.Value = append(t.Value, -v)
+		}
+		q.Sample = append(q.Sample, t)
+	}
+	return q
+}
+
 func c03SharedRandom(c *Ctx, n int) {
 	// lists of GenProfile profiles forced to the same types: colliding ids, unrelated content,
 	// and a profile merged with itself / its negation (the shape the existing tests use)
@@ -999,9 +1016,7 @@ func c03SharedRandom(c *Ctx, n int) {
 			ps = append(ps, ps[0])
 			nt = true
 		case 1:
-			q := ps[0].Copy()
-			q.Scale(-1)
-			ps = append(ps, q)
+			ps = append(ps, c03Negate(ps[0]))
 			nt = true
 		}
 		c03Emit(c, "genprofile", ps, nt)
